@@ -15,6 +15,9 @@ evaluation F(z) by bracket search, own inversion that knows plateaus.
   explicit    explicit u == internal generator fed the same numbers (constant RNG stub on
               mixed batches of every size; RNG spy on single-event calls)
 """
+import contextlib
+import io
+
 import numpy as np
 
 from .. import rngctl
@@ -242,6 +245,26 @@ def run(ctx):
                     ctx.exception("raises", f"table v{version}: explicit-vs-internal comparison raised ({comp}, {size})", e, {"version": version, "size": size, "comp": comp})
             done += size
 
+        # ---------- diagnostic plots requested: an observer, the sampled energies stay the same ------
+        try:
+            import matplotlib.pyplot as plt
+
+            lp, bp = gen_points(rng, axE, axB, 400)
+            lp0, bp0 = lp.copy(), bp.copy()
+            with rngctl.stub(rngctl.constant(0.3125)):
+                plain = [np.array(x, copy=True) for x in tau(bp.copy(), lp.copy())]
+            names = ["taus_density_beta", "taus_histogram", "taus_pexit", "taus_overview"]
+            with rngctl.stub(rngctl.constant(0.3125)), contextlib.redirect_stdout(io.StringIO()):
+                plotted = tau(bp, lp, plot=names)
+            plt.close("all")
+            ctx.count("plots", 400)
+            if not all(np.asarray(a).tobytes() == b.tobytes() for a, b in zip(plotted, plain)):
+                k = [i for i, (a, b) in enumerate(zip(plotted, plain)) if np.asarray(a).tobytes() != b.tobytes()][0]
+                ctx.violation("pipeline", f"table v{version}: Taus.__call__ with the diagnostic plots {names} requested returns a different output #{k} (first event {np.asarray(plotted[k])[0]!r} instead of {plain[k][0]!r})", {"version": version, "plots": names, "output": k})
+            if lp.tobytes() != lp0.tobytes() or bp.tobytes() != bp0.tobytes():
+                ctx.violation("inputs-modified", f"table v{version}: Taus.__call__ with plots requested modified its input arrays (log_e_nu[0] {lp0[0]!r} -> {lp[0]!r})", {"version": version, "plots": names})
+        except Exception as e:
+            ctx.exception("raises", f"table v{version}: Taus.__call__ with diagnostic plots requested raised", e, {"version": version})
         # ---------- single-event calls: RNG spy --------------------------------------------------
         nsingle = ctx.pick(150, 1500)
         le1, be1 = gen_points(rng, axE, axB, nsingle)
@@ -301,7 +324,7 @@ def run(ctx):
                         ctx.violation("reject", f"table v{version}: energy logE={badE!r} outside the table accepted (beta={bb!r}), E_tau={np.asarray(r)[2]!r}", {"version": version, "loge": repr(badE), "beta": float(bb)})
                     except Exception:
                         pass
-    for m in ("pipeline", "call", "forward", "inverse", "range", "monotone", "low", "high", "reject", "explicit", "explicit-spy", "sampler-direct"):
+    for m in ("pipeline", "plots", "call", "forward", "inverse", "range", "monotone", "low", "high", "reject", "explicit", "explicit-spy", "sampler-direct"):
         ctx.require(m)
     return ctx.finish(
         rule="per table version: batches of size {1,2,8191,8192,8193,20000} with energies scattered / one tabulated value / blocks of constant tabulated values (8192-aligned and not) / sorted, in compositions {all in-table, all below-min, all above-max, mixed 25 % / 80 % / 0.2 % above-max}; (logE, beta) from nodes, cell centres, cell edges and interior; u uniform on [0, 1) plus hostile values (0, denormal .. 1-2^-53) and exact node CDF values incl. the first and last of each row; a case is a distinct (version, logE, beta, u)",
